@@ -1499,7 +1499,11 @@ model - is correspondence only (harness: lives). -/
 section Life
 variable {A D R : Type}
 
-/-- **C19_life_history** (the estimator OBJECT, any class): after ANY history of attribute assignments
+/-- **C19_life_history** (audit F: NOT counted as an obligation any more - it is the fold `estRun`
+rewritten as the two recursions `attrsAfter` / `callsAt`, true for EVERY `call : A → D → R`; that a call
+reads nothing but the record is the TYPE of `estStep`, i.e. the modelling decision, not something
+proved about the estimators.  Kept as documentation and as the lemma behind `estRun_last`.)
+(the estimator OBJECT, any class): after ANY history of attribute assignments
 and calls on an object constructed with the attribute values `a`, the object's state is the attribute
 values in force (`attrsAfter`: the assignments in order) and EVERY result returned so far is the call
 function evaluated at the attribute values in force at that call and at that call's draws
@@ -1546,7 +1550,7 @@ theorem C19_life_is (Ω : List σ) (a0 : ISAttrs α σ) (h : List (EstOp (ISAttr
     intro t ht
     have hl := length_of_mem_tuples Ω N t ht
     simp only [lastValue, estRun_last, Option.getD_some]
-    rw [isCall_eq _ t hsn hlog (by rw [hl, hmc])]
+    rw [isCall_eq _ t hsn hlog (by rw [hl, hmc]) (by rw [hmc]; rintro rfl; exact hN Nat.cast_zero)]
     simp [ISPt.sample, List.map_map, Function.comp_def]
   rw [meanOver_congr _ N Ω _ _ step]
   generalize attrsAfter a0 h = a at hmc hsn hlog hq hsum ⊢
@@ -1574,7 +1578,8 @@ theorem C19_life_direct (Ω : List σ) (a0 : DirectAttrs α σ)
     intro t ht
     have hl := length_of_mem_tuples Ω N t ht
     simp only [lastValue, estRun_last, Option.getD_some]
-    rw [directCall_eq _ t hlog (by rw [hl, hmc]), directEstimate_nocv]
+    rw [directCall_eq _ t hlog (by rw [hl, hmc]) (by rw [hmc]; rintro rfl; exact hN Nat.cast_zero)
+      (by rw [hcv]; rfl), directEstimate_nocv]
     · rw [List.map_map, Option.getD_some]
       congr 1
       apply List.map_congr_left
@@ -1667,5 +1672,18 @@ example : meanOver (fun b => ((attrsAfter exDObj exDHist).proposal.p b).val) 2 [
     (by norm_num [attrsAfter, exDObj, exDHist])]
   apply Dual.ext' <;> norm_num [attrsAfter, exDObj, exDHist, Dual.sum_val, Dual.sum_grad]
 
+/-! ### audit F: objects an assignment makes INVALID (no constructor check runs again) fail in the
+model as the code does - `isCall` / `directCall` used to be total there (`mc_samples = 0`: the empty sum
+`0` where `math.log(0)` raises resp. the mean of an empty tensor is NaN; a control variate without
+`cv_mean`: `func(b)` where `fb - cvb + None` raises TypeError).  The `C19_life_*` theorems were already
+stated under the guards (`(N : α) ≠ 0`, `cv = none`, `burn_in < mc_samples`). -/
+example : (estRun isCall exISObj (exISHist ++ [.set fun a => { a with mcSamples := 0 }, .call []])).2.getLast?
+    = some none := by rfl
+example : (estRun directCall exDObj [.set fun a => { a with cvMean := none }, .call [1]]).2.getLast?
+    = some none := by rfl
+example : (estRun directCall exDObj (exDHist ++ [.set fun a => { a with mcSamples := 0 }, .call []])).2.getLast?
+    = some none := by rfl
+example : (estRun imhCall exIMHObj [.set fun a => { a with burnIn := 2 },
+      .call ([1, 1], [some (-1), some (-1)])]).2.getLast? = some none := by decide +kernel
 
 end PdtVerif.Estimators
